@@ -112,6 +112,25 @@ pub fn entry_point(s: &GenStream, ep: &str, acc: Option<&mut Acc>) -> Result<(),
                     return Err(format!("slice_iter one-byte slices with one spare byte: {:?}", r.map_err(status_name)));
                 }
             }
+            // iterators that yield empty slices (first, between, last) and uneven tiny slices
+            if data.len() <= 4000 {
+                let e: &[u8] = &[];
+                let mut parts: Vec<&[u8]> = vec![e, e];
+                let mut i = 0;
+                let mut w = 1;
+                while i < data.len() {
+                    let k = w.min(data.len() - i);
+                    parts.push(&data[i..i + k]);
+                    parts.push(e);
+                    i += k;
+                    w = w % 5 + 1;
+                }
+                parts.push(e);
+                let r = decompress_slice_iter_to_slice(&mut out, parts.iter().cloned(), s.zlib, false);
+                if r != Ok(n) || out[..n] != s.plain[..] {
+                    return Err(format!("slice_iter with empty and 1..5-byte slices, one spare byte: {:?}", r.map_err(status_name)));
+                }
+            }
             Ok(())
         }
         "E5-inflate" => {
